@@ -457,6 +457,7 @@ input::
         numpy.seterr(**settings)
         if at: return x_
         # clip x0 within bounds (at bounds, if is unbounded on either side)
+        if numpy.all(x_ == x0): return x0 # is within bounds (so no random)
         settings = numpy.seterr(all='ignore')
         new = random.uniform(self._strictMin,self._strictMax)
         numpy.seterr(**settings)
